@@ -157,6 +157,8 @@ type calls struct {
 	gated  bool
 	gates  map[int]chan struct{}
 	parked []int
+	// checks of caller-owned memory, run when the case ends: a non-empty answer says what the stage did to it
+	memcheck []func() string
 }
 
 func (c *calls) enter(x int) {
@@ -389,11 +391,23 @@ func build(ctx context.Context, s *Stage, ins []chan int, c *calls) []output {
 		return []output{outInt(pipe.Fold(ctx, roIns[0], s.monoid()))}
 	case "join":
 		// the caller may reuse the slice it spreads into the variadic parameter as soon as Join has returned
+		// - it puts other channels there, which nobody feeds, and they are still there when the case ends: the slice
+		// is the caller's, the stage neither reads it late nor writes to it
 		args := append([]<-chan int(nil), roIns...)
 		o := pipe.Join(ctx, args...)
+		other := make([]<-chan int, len(args))
 		for i := range args {
-			args[i] = nil
+			other[i] = make(chan int)
+			args[i] = other[i]
 		}
+		c.memcheck = append(c.memcheck, func() string {
+			for i := range args {
+				if args[i] != other[i] {
+					return fmt.Sprintf("Join wrote to the caller's slice of inputs (slot %d) after it had returned", i)
+				}
+			}
+			return ""
+		})
 		return []output{outInt(o)}
 	case "unfold":
 		o, e := pipe.Unfold(ctx, s.N, s.Seed, lift(s.eitherE(c)))
